@@ -87,13 +87,16 @@ def build_message(pal, mid, filler=False):
     return data, src
 
 
-def realise_folder(w, name, slots, palette):
+def realise_folder(w, name, slots, palette, top_filler=False):
     """Write the folder of one abstract mailbox (before the server starts).
-    Returns the plan for the set-up session."""
+    Returns the plan for the set-up session.  With top_filler one more file is
+    written above the highest wanted uid and removed by the set-up session:
+    the mailbox then has a history in which its newest message was expunged
+    (UIDNEXT is more than one above the highest UID)."""
     path = w.maildir / name
     path.mkdir(parents=True, exist_ok=True)
     by_uid = {int(u): int(t) for t, u in slots}
-    top = max(by_uid) if by_uid else 0
+    top = (max(by_uid) if by_uid else 0) + (1 if top_filler else 0)
     seqs = {}
     sources = {}
     fillers, not_recent = [], []
@@ -308,7 +311,9 @@ def run_groups(job):
     w = world.World(seed=job.get("seed", 0))
     plans = []
     for g in job["groups"]:
-        plans.append((realise_folder(w, g["name"], g["slots"], palette), g))
+        # every third mailbox has had its newest message expunged
+        plans.append((realise_folder(w, g["name"], g["slots"], palette,
+                                     top_filler=(len(plans) + job.get("seed", 0)) % 3 == 1), g))
 
     async def main(loop):
         await w.start()
